@@ -189,6 +189,9 @@ TolTheta == 1               \* 10^-9 cm3/cm3 in units of 10^-9 (projection round
 
 \* every projected number was finite (C06: no NaN / infinity in any state variable that is observed)
 Finite == l > 1 /\ Has(Ev, "finite") => Ev.finite
+\* every projected number fitted its fixed-point family (otherwise the harness, not the code, is at fault: exit 2)
+InRange == l > 1 /\ Has(Ev, "inrange") => Ev.inrange
+InRangeN == l > 1 /\ Has(Ev, "inrangeN") => Ev.inrangeN
 
 \* =============================================================================================
 \* C01  soil water mass balance
@@ -203,16 +206,19 @@ C01_Chain == /\ (l > 1 /\ Ev.ev = "sub.pre" /\ Ev.subd = 1) => LAbsLe(LSub(Ev.S,
 \* the day: all sub-steps were executed, they cover the day, and the ledger closes with the DAY's surface flux
 C01_Day == AfterDenit =>
    /\ nsub = Stp.steps
-   /\ LAbsLe(LSub(acc.wdt, LOne), 1000)
-   /\ LAbsLe(LSub(LSub(Den.S, Eva.S0), LSum(<<Eva.fluss0, LNeg(acc.tp), LNeg(acc.q1n), LNeg(acc.qdr)>>)), TolWater)
+   \* every accumulated sub-step term carries half a unit of projection rounding: tolerance grows with the count
+   /\ LAbsLe(LSub(acc.wdt, LOne), TolWater + nsub)
+   /\ LAbsLe(LSub(LSub(Den.S, Eva.S0), LSum(<<Eva.fluss0, LNeg(acc.tp), LNeg(acc.q1n), LNeg(acc.qdr)>>)), TolWater + 2 * nsub)
+   \* the surface flux applied over the sub-steps is the day's surface flux
+   /\ LAbsLe(LSub(acc.fin, Eva.fluss0), TolWater + nsub)
 \* between days the storage is handed over unchanged (not judged on measurement-overwrite days and when the
 \* groundwater table moved: those impose a state, as the property says)
 GwMoved == Gw.old # Gw.grw
 C01_Handover == (AfterEvatra /\ prev.has /\ ~Inp.overwrite /\ ~GwMoved) => LAbsLe(LSub(Eva.S0, prev.sEnd), 0)
 \* reported boundary fluxes: percolation / capillary rise (with groundwater uptake) and drain flow counters
 C01_Counters == AfterSubWater =>
-   /\ LAbsLe(LSub(LAdd(LAdd(LSub(Wat.sicker, Pre.sicker), LSub(Wat.capsum, Pre.capsum)), LScale(Wat.gwaufw, 10)), LScale(Wat.q1out, 10)), 10 * TolWater)
-   /\ LAbsLe(LSub(LSub(Wat.draisum, Pre.draisum), LScale(Wat.qdr, 10)), 10 * TolWater)
+   /\ LAbsLe(LSub(LAdd(LAdd(Wat.dSicker, Wat.dCapsum), LScale(Wat.gwaufw, 10)), LScale(Wat.q1out, 10)), 10 * TolWater)
+   /\ LAbsLe(LSub(Wat.dDraisum, LScale(Wat.qdr, 10)), 10 * TolWater)
 C01_All == C01_SubStep /\ C01_Chain /\ C01_Day /\ C01_Handover /\ C01_Counters
 
 \* =============================================================================================
